@@ -59,9 +59,83 @@ where
     if c != expect {
         fail(what, &x, format!("canonical form {:02x?}, expected {:02x?}", c, expect));
     }
+    // through the reference forwarders (`impl ComposeRecordData for &T`): generic code composes `&D`
+    if wire(&&x) != w || canon(&&x) != c || (&x).rdlen(false) != x.rdlen(false) {
+        fail(what, &x, format!("through a reference: wire {:02x?} canonical {:02x?}; by value: wire {:02x?} canonical {:02x?}", wire(&&x), canon(&&x), w, c));
+    }
+    // as a record in a message under each name compressor: the RDLENGTH written must frame the data (rdlen(true) /
+    // the length patched in afterwards), and the record must read back as the value
+    message_roundtrip(what, &x, &z);
     // the same value inside the zone record data enum
     if wire(&z) != w || canon(&z) != c || z.rdlen(false) != x.rdlen(false) {
         fail(what, &x, format!("inside ZoneRecordData: wire {:02x?} canonical {:02x?} rdlen {:?}; the value itself: wire {:02x?} canonical {:02x?} rdlen {:?}", wire(&z), canon(&z), z.rdlen(false), w, c, x.rdlen(false)));
+    }
+}
+fn message_roundtrip<D>(what: &str, x: &D, z: &Z)
+where
+    D: ComposeRecordData + Debug + Clone,
+{
+    use domain::base::message_builder::{HashCompressor, StaticCompressor, TreeCompressor};
+    use domain::base::{Message, MessageBuilder, Record, Rtype as RT};
+    let owner: N = Name::from_str("Host.Example.COM.").unwrap();
+    let q: N = Name::from_str("mail.example.com.").unwrap();
+    let build = |kind: u8| -> Option<Vec<u8>> {
+        macro_rules! go {
+            ($target:expr, $finish:expr) => {{
+                let mut mb = MessageBuilder::from_target($target).ok()?.question();
+                mb.push((&q, RT::ANY)).ok()?;
+                let mut ab = mb.answer();
+                ab.push(Record::new(&owner, domain::base::iana::Class::IN, Ttl::from_secs(60), x.clone())).ok()?;
+                ab.push(Record::new(&q, domain::base::iana::Class::IN, Ttl::from_secs(61), x.clone())).ok()?;
+                Some($finish(ab.finish()))
+            }};
+        }
+        match kind {
+            0 => go!(Vec::new(), |t: Vec<u8>| t),
+            1 => go!(StaticCompressor::new(Vec::new()), |t: StaticCompressor<Vec<u8>>| t.into_target()),
+            2 => go!(TreeCompressor::new(Vec::new()), |t: TreeCompressor<Vec<u8>>| t.into_target()),
+            _ => go!(HashCompressor::new(Vec::new()), |t: HashCompressor<Vec<u8>>| t.into_target()),
+        }
+    };
+    for kind in 0..4u8 {
+        let bytes = match build(kind) {
+            Some(b) => b,
+            None => continue, // does not fit a message (65535-octet record data): not this check's subject
+        };
+        let cname = ["no compressor", "StaticCompressor", "TreeCompressor", "HashCompressor"][kind as usize];
+        let msg = match Message::from_octets(bytes.clone()) {
+            Ok(m) => m,
+            Err(_) => fail(what, x, format!("[{cname}] the built message is not a message")),
+        };
+        let mut count = 0;
+        let ans = match msg.answer() {
+            Ok(a) => a,
+            Err(e) => fail(what, x, format!("[{cname}] answer section unreadable: {e}")),
+        };
+        for rec in ans {
+            let rec = match rec {
+                Ok(r) => r,
+                Err(e) => fail(what, x, format!("[{cname}] record {count} of the built message is unreadable: {e}; message {bytes:02x?}")),
+            };
+            match rec.to_record::<ZoneRecordData<_, _>>() {
+                Ok(Some(r)) => {
+                    if r.data() != z {
+                        fail(what, x, format!("[{cname}] record {count} reads back as {:?}", r.data()));
+                    }
+                }
+                other => fail(what, x, format!("[{cname}] record {count} does not read back as its type: {:?}", other.map(|o| o.is_some()).map_err(|e| e.to_string()))),
+            }
+            count += 1;
+        }
+        if count != 2 {
+            fail(what, x, format!("[{cname}] {count} answer records read, 2 were pushed"));
+        }
+        // nothing may be left over behind the two records: the RDLENGTHs frame the data exactly
+        if let Ok(add) = msg.additional() {
+            if add.pos() != bytes.len() {
+                fail(what, x, format!("[{cname}] {} octets of the message lie behind the last record", bytes.len() - add.pos()));
+            }
+        }
     }
 }
 fn wire_rtype(z: &Z) -> Rtype {
